@@ -64,12 +64,12 @@ func verifBound(label string, sc Scope, name string, want Value) {
 	}
 }
 
-// verif:bound VerifC09ArrayPattern 8 array patterns (names, a literal, ...rest at each position, a fallback to an outer variable) against arrays of 0..3 small integers at offset 0
+// verif:bound VerifC09ArrayPattern 8 array patterns (names, a literal, ...rest at each position, a fallback to an outer variable) against arrays of 0..3 (thorough: 0..4) small integers at offset 0
 // verif:cover VerifC09ArrayPattern match no-match rest-middle fallback-used
 func VerifC09ArrayPattern() {
 	pi := verifChoice(len(verifArrayPatterns))
 	items := verifArrayPatterns[pi]
-	n := verifChoice(4)
+	n := verifChoice(verifWiden(4, 5))
 	xs := make([]int, n)
 	vals := make([]Value, n)
 	for i := range xs {
